@@ -1650,3 +1650,37 @@ package router
 //@   ensures [C18:client-limiter-closed] err == nil && (old(l.cl) != nil ==> nC == 1)
 //@   callsite ClientLimiter.Close: [C18:its-own-limiter] arg0 == l.cl
 
+// gnetServer.OnClose: the connection's idle timer is stopped (it would otherwise fire on a connection that is gone)
+// and nothing else is asked of the engine.
+//@ func (e *gnetServer) OnClose(c gnet.Conn, err error) (action gnet.Action)
+//@   props C18 C13
+//@   requires e != nil && e.logger != nil && c != nil
+//@   assumecall Context: typeIs(ret0, *connCtx) && ptrOf(ret0, connCtx) != nil && ptrOf(ret0, connCtx).idleTimer != nil -- what OnOpen attached
+//@   ghost nStop int = 0
+//@   ghost gCtx any = nil
+//@   aftercall Context: gCtx = ret0
+//@   oncall Timer.Stop: nStop = nStop + 1
+//@   modifies *
+//@   ensures [C18:idle-timer-stopped-once] nStop == 1 && action == gnet.None
+//@   callsite Context: [C18:of-the-closed-connection] arg0 == c
+//@   callsite Timer.Stop: [C18:this-connections-timer] arg0 == ptrOf(gCtx, connCtx).idleTimer
+
+// gnetServer.Close: the engine is stopped at most once, and the server is marked closed before that (so the engine's
+// exit is not reported as fatal).
+//@ func (e *gnetServer) Close() (err error)
+//@   props C18
+//@   requires e != nil
+//@   modifies *
+//@   ensures err == nil
+//@ closure gnetServer.Close$1
+//@   props C18
+//@   requires e != nil
+//@   ghost nStop int = 0
+//@   ghost nMark int = 0
+//@   oncall Store: nMark = nMark + 1
+//@   oncall Stop: nStop = nStop + 1
+//@   modifies *
+//@   ensures [C18:engine-stopped-once] nStop == 1
+//@   callsite Store: [C18:marked-closed] arg0 == &e.closed && arg1 == true
+//@   callsite Stop: [C18:marked-closed-before-the-engine-stops] nMark == 1
+
